@@ -92,6 +92,10 @@ CollisionKeys == << << 65, 97 >>,
                    << 121, 116, 109, 121, 119, 119, 114 >>,
                    << 239, 172, 129, 108, 101 >>,
                    << 240, 159, 152, 128, 115, 109, 105, 108, 101 >> >>
+\* keys that are proper prefixes of other keys, continued by bytes below and above '=' and ';' (an order computed on "key=value" or on
+\* joined strings differs from the order of the keys)
+PrefixKeys == << << 102, 97, 109, 105, 108, 121 >>, << 102, 97, 109, 105, 108, 121, 46, 107, 101, 121 >>, << 102, 97, 109, 105, 108, 121, 46, 115, 105, 103 >>, << 107, 49 >>, << 107, 49, 48 >>, << 97 >>, << 97, 45 >>, << 97, 46 >>, << 97, 61 >>, << 97, 59, 98 >>, << 110, 101, 116 >>, << 110, 101, 116, 73, 100 >>, << 110, 101, 116, 46, 120 >> >>
+PrefixPairs == [i \in 1..Len(PrefixKeys) |-> << PrefixKeys[i], << 49 + (i % 9) >> >>]
 CollisionPairs == [i \in 1..Len(CollisionKeys) |-> << CollisionKeys[i], << 48 + (i % 10) >> >>]
 
 \* class of a mapping body for known-finding keys: which leniency of the implementation's loop it meets
